@@ -122,13 +122,22 @@ func (w *shWorld) emName(a [32]byte) string {
 // build the VAA for (id, tag): every field except the identifier is a function of (id, tag); tags ending in
 // "L" get a payload longer than 1000 bytes.  plen > 0 overrides the payload length (C16: large values).
 func (w *shWorld) build(id shID, tag string, plen int) *vhVAA {
-	h := sha256.Sum256([]byte(fmt.Sprintf("verif-vaa|%d|%s|%d|%d|%s", id.EC, id.Em, id.TC, id.Seq, tag)))
+	// A tag ending in "S" is a sibling of the tag without it: the SAME message body (hence the same signing
+	// digest) under another guardian set index and another signature list - what a node holds when it first
+	// stores a peer's copy and later its own (or the other way round).
+	bodyTag := strings.TrimSuffix(tag, "S")
+	hs := sha256.Sum256([]byte(fmt.Sprintf("verif-vaa|%d|%s|%d|%d|%s", id.EC, id.Em, id.TC, id.Seq, tag)))
+	h := sha256.Sum256([]byte(fmt.Sprintf("verif-vaa|%d|%s|%d|%d|%s", id.EC, id.Em, id.TC, id.Seq, bodyTag)))
 	v := &vhVAA{Version: 1}
-	v.SetIndex = uint32(h[0] % 4)
-	nsig := 1 + int(h[1]%3)
+	v.SetIndex = uint32(hs[0] % 4)
+	nsig := 1 + int(hs[1]%3)
+	if tag != bodyTag {
+		v.SetIndex = uint32(h[0]%4) + 1
+		nsig = 1 + int(h[1]%3) + 1
+	}
 	for i := 0; i < nsig; i++ {
 		s := vhSig{Index: uint8(i)}
-		copy(s.Sig[:], vhExpand(fmt.Sprintf("sig|%x|%d", h[:8], i), 65))
+		copy(s.Sig[:], vhExpand(fmt.Sprintf("sig|%x|%d", hs[:8], i), 65))
 		v.Sigs = append(v.Sigs, s)
 	}
 	v.Ts = 1600000000 + uint32(binary.BigEndian.Uint16(h[2:4]))
